@@ -5,10 +5,11 @@
    any number of threads with any programs.  Every theorem quantifies over ALL
    schedules and all thread sets; nothing is proved by exploration.
    The buffered channel (n > 0) refines Go's channel (the executable specification
-   [spec_step]) up to finding F5 (send on closed returns false instead of panicking,
-   written as the event ESendClosed; close of a closed channel is accepted).
-   For the unbuffered channel the corresponding statements are false of the code:
-   the *_refuted theorems give explicit schedules (replayed on the real z_chan.go by
+   [spec_step]), including the panics: a send that finds the channel closed panics
+   (event ESendClosed, result RPanic), so does close of a closed channel (ECloseClosed)
+   - finding F5 is repaired in the modelled code.
+   For the unbuffered channel the exactly-once / liveness statements are false of the
+   code: the *_refuted theorems give explicit schedules (replayed on the real z_chan.go by
    props/C10/check.py on every run). *)
 From LLGoV Require Import Lib.Common C10.Model C10.Proofs.
 
@@ -59,18 +60,33 @@ Proof. exact run_after_close. Qed.
 Print Assumptions nothing_sent_after_close.
 
 (* no lost wake-up: whenever no thread can run, every unfinished thread is parked
-   where Go would block it too - a sender in front of a full buffer, a receiver in
-   front of an empty open channel.  (A sender parked on a full CLOSED channel is
-   the defect send_full_then_close_refuted.) *)
+   where Go would block it too - a sender in front of a full buffer of an OPEN
+   channel (a sender parked on a full buffer notices close: the former defect
+   send_full_then_close is repaired), a receiver in front of an empty open channel. *)
 Theorem buffered_no_lost_wakeup : forall n progs sc, 0 < n ->
   let s := run sc (init n progs) in
   (forall th, In th (ths s) -> enabled th = false) ->
   forall th, In th (ths s) -> prog th <> [] ->
     parked th = true /\
-    ((tpc th = PSendW /\ len (ch s) = n) \/
+    ((tpc th = PSendW /\ len (ch s) = n /\ closed (ch s) = false) \/
      (tpc th = PRecvW /\ len (ch s) = 0 /\ closed (ch s) = false)).
 Proof. exact quiescent_blocked_legit. Qed.
 Print Assumptions buffered_no_lost_wakeup.
+
+(* close wakes everybody: once the channel is closed, a state in which nobody can
+   run has no unfinished thread at all (blocked receivers returned zero/ok=false,
+   blocked senders panicked) *)
+Theorem buffered_close_leaves_nobody_blocked : forall n progs sc, 0 < n ->
+  let s := run sc (init n progs) in
+  (forall th, In th (ths s) -> enabled th = false) -> closed (ch s) = true ->
+  forall th, In th (ths s) -> prog th = [].
+Proof.
+  intros n progs sc Hn s Hq Hc th Hin.
+  destruct (prog th) eqn:E; auto. exfalso.
+  destruct (quiescent_blocked_legit n progs sc Hn Hq th Hin) as [_ [(_ & _ & H)|(_ & _ & H)]];
+    try (rewrite E; discriminate); fold s in H; congruence.
+Qed.
+Print Assumptions buffered_close_leaves_nobody_blocked.
 
 (* hence no blocked sender together with a blocked receiver *)
 Theorem buffered_no_stuck_pair : forall n progs sc, 0 < n ->
@@ -80,7 +96,7 @@ Theorem buffered_no_stuck_pair : forall n progs sc, 0 < n ->
     tpc a = PSendW -> tpc b = PRecvW -> False.
 Proof.
   intros n progs sc Hn s Hq a b Ha Hb Pa Pb Ta Tb.
-  destruct (quiescent_blocked_legit n progs sc Hn Hq a Ha Pa) as [_ [[_ H1]|[H1 _]]]; [|congruence].
+  destruct (quiescent_blocked_legit n progs sc Hn Hq a Ha Pa) as [_ [[_ [H1 _]]|[H1 _]]]; [|congruence].
   destruct (quiescent_blocked_legit n progs sc Hn Hq b Hb Pb) as [_ [[H2 _]|[_ [H2 _]]]]; [congruence|].
   fold s in H1, H2. lia.
 Qed.
@@ -128,27 +144,38 @@ Theorem recv_ok_after_delivery_refuted :
 Proof. exists 0%nat, [[ORecv]; [OSend 7%N; OClose]], [0;0;0;1;1;1;0;1]%nat. exact f19_recv_reported_closed. Qed.
 Print Assumptions recv_ok_after_delivery_refuted.
 
-(* F4: a sender parked on a full buffer stays parked after close (Go: panic) *)
-Theorem send_full_then_close_refuted :
-  exists n progs sc, let s := run sc (init n progs) in
-    (forall th, In th (ths s) -> enabled th = false) /\ closed (ch s) = true /\
-    (exists th, nth_error (ths s) 0 = Some th /\ prog th = [OSend 6%N] /\ parked th = true /\ tpc th = PSendW).
-Proof. exists 1%nat, [[OSend 5%N; OSend 6%N]; [OClose]], [0;0;0;1;1;0]%nat. exact f4_send_full_close. Qed.
-Print Assumptions send_full_then_close_refuted.
+(* F5 repaired - send on a closed channel panics (any capacity, any state): a thread
+   at the opening Lock of ChanSend, woken from ChanSend's Wait, or at the opening Lock
+   of ChanTrySend finishes that call with a panic in its next step *)
+Theorem send_on_closed_panics : forall s t th v rest,
+  nth_error (ths s) t = Some th -> parked th = false -> closed (ch s) = true ->
+  (prog th = OSend v :: rest /\ (tpc th = PStart \/ tpc th = PSendW)) \/
+  (prog th = OTrySend v :: rest /\ tpc th = PStart) ->
+  exists s' th', step s t = Some s' /\ nth_error (ths s') t = Some th' /\
+                 prog th' = rest /\ out th' = out th ++ [RPanic].
+Proof.
+  intros s t th v rest Et Epk Ec H.
+  destruct (send_closed_panics s t th v rest Et Epk Ec H) as (s' & th' & H1 & H2 & H3 & H4).
+  rewrite Et in H4. exists s', th'. repeat split; assumption.
+Qed.
+Print Assumptions send_on_closed_panics.
 
-(* F5: ChanSend on a closed channel returns (false) instead of panicking, and a
-   second ChanClose returns normally *)
-Theorem send_closed_panics_refuted :
-  exists n progs sc, let s := run sc (init n progs) in
-    exists th, nth_error (ths s) 0 = Some th /\ prog th = [] /\ out th = [RClose; RSend false].
-Proof. exists 1%nat, [[OClose; OSend 5%N]], [0;0;0]%nat. exact f5_send_closed. Qed.
-Print Assumptions send_closed_panics_refuted.
+Theorem close_of_closed_panics : forall s t th rest,
+  nth_error (ths s) t = Some th -> parked th = false -> closed (ch s) = true ->
+  prog th = OClose :: rest -> tpc th = PStart ->
+  exists s' th', step s t = Some s' /\ nth_error (ths s') t = Some th' /\
+                 prog th' = rest /\ out th' = out th ++ [RPanic].
+Proof.
+  intros s t th rest Et Epk Ec Ep Hp.
+  destruct (close_closed_panics s t th rest Et Epk Ec Ep Hp) as (s' & th' & H1 & H2 & H3 & H4).
+  rewrite Et in H4. exists s', th'. repeat split; assumption.
+Qed.
+Print Assumptions close_of_closed_panics.
 
-Theorem close_closed_panics_refuted :
-  exists n progs sc, let s := run sc (init n progs) in
-    exists th, nth_error (ths s) 0 = Some th /\ prog th = [] /\ out th = [RClose; RClose].
-Proof. exists 1%nat, [[OClose; OClose]], [0;0;0;0]%nat. exact f5_close_closed. Qed.
-Print Assumptions close_closed_panics_refuted.
+Example panics_nontrivial :
+  let s := run [0;0;0;0;1;1]%nat (init 1 [[OClose; OSend 5; OClose]; [OTrySend 6; ORecv]]) in
+  map out (ths s) = [[RClose; RPanic; RPanic]; [RPanic; RRecv false 0]].
+Proof. reflexivity. Qed.
 
 (* the non-blocking receive (select with default) on an unbuffered channel: it
    took 7 from a blocked sender (whose call returned true), then a later receive
